@@ -322,13 +322,18 @@ def rule_MC(run: Run) -> RuleResult:
         amap = astu.single_assign_map(fn)
         params = astu.param_names(fn)
         keys = []
+        rs = astu.class_resolver(repo, mc)
+
+        def K(e):
+            return astu.inline_helpers(astu.expand_locals(e, amap), rs)
+
         for n in astu.walk_no_nested(fn):
             if isinstance(n, ast.Subscript) and astu.is_self_attr(n.value, "_cache"):
-                keys.append(astu.expand_locals(n.slice, amap))
+                keys.append(K(n.slice))
             if isinstance(n, ast.Compare) and len(n.ops) == 1 and isinstance(n.ops[0], (ast.In, ast.NotIn)) and astu.is_self_attr(n.comparators[0], "_cache"):
-                keys.append(astu.expand_locals(n.left, amap))
+                keys.append(K(n.left))
             if isinstance(n, ast.Call) and isinstance(n.func, ast.Attribute) and astu.is_self_attr(n.func.value, "_cache") and n.func.attr in ("get", "pop", "setdefault", "__getitem__", "__contains__", "__setitem__") and n.args:
-                keys.append(astu.expand_locals(n.args[0], amap))
+                keys.append(K(n.args[0]))
         want = f"{params[0]}.fingerprint({params[1]})" if len(params) >= 2 else "?"
         got = sorted({ast.unparse(k) for k in keys})
         ok = got == [want]
@@ -338,7 +343,7 @@ def rule_MC(run: Run) -> RuleResult:
     ex = mc.methods.get("exists")
     if ex is not None:
         amap = astu.single_assign_map(ex)
-        rets = [astu.expand_locals(r.value, amap) for r in astu.walk_no_nested(ex) if isinstance(r, ast.Return) and r.value is not None]
+        rets = [astu.inline_helpers(astu.expand_locals(r.value, amap), astu.class_resolver(repo, mc)) for r in astu.walk_no_nested(ex) if isinstance(r, ast.Return) and r.value is not None]
         ok = bool(rets) and all(isinstance(r, ast.Compare) and len(r.ops) == 1 and isinstance(r.ops[0], ast.In) and astu.is_self_attr(r.comparators[0], "_cache") for r in rets)
         res.add("labrea.cache.MemoryCache.exists:presence is membership of the fingerprint (as in get)", ok, f, ex.lineno,
                 f"returns {[ast.unparse(r) for r in rets]}",
